@@ -37,8 +37,15 @@ pub struct FileStorage {
 impl FileStorage {
     fn apply_wal_record(file: &mut File, record: WriteAheadLogRecord) -> Result<(), DbError> {
         if record.value.is_empty() {
+            #[cfg(agdb_verif)]
+            crate::verif::fs_event(crate::verif::FsEvent::DataSetLen { len: record.pos });
             file.set_len(record.pos)?;
         } else {
+            #[cfg(agdb_verif)]
+            crate::verif::fs_event(crate::verif::FsEvent::DataWrite {
+                pos: record.pos,
+                bytes: &record.value,
+            });
             file.seek(SeekFrom::Start(record.pos))?;
             file.write_all(&record.value)?;
         }
@@ -55,11 +62,19 @@ impl FileStorage {
     }
 
     fn open_file(&self) -> Result<File, DbError> {
+        #[cfg(agdb_verif)]
+        crate::verif::fs_event(crate::verif::FsEvent::ReadOpen);
         Ok(File::open(&self.filename)?)
     }
 
     fn read_impl(mut file: &File, pos: u64, buffer: &mut [u8]) -> Result<(), DbError> {
+        #[cfg(agdb_verif)]
+        crate::verif::fs_event(crate::verif::FsEvent::ReadSeek { pos });
         file.seek(SeekFrom::Start(pos))?;
+        #[cfg(agdb_verif)]
+        crate::verif::fs_event(crate::verif::FsEvent::ReadExact {
+            len: buffer.len() as u64,
+        });
         file.read_exact(buffer)?;
         Ok(())
     }
@@ -113,6 +128,8 @@ impl StorageData for FileStorage {
     fn read(&'_ self, pos: u64, value_len: u64) -> Result<StorageSlice<'_>, DbError> {
         let mut buffer = vec![0_u8; value_len as usize];
 
+        #[cfg(agdb_verif)]
+        crate::verif::fs_event(crate::verif::FsEvent::ReadTryLock);
         if let Ok(_guard) = self.lock.try_lock() {
             Self::read_impl(&self.file, pos, &mut buffer)?;
         } else {
@@ -142,6 +159,8 @@ impl StorageData for FileStorage {
             self.wal.insert(new_len, &[])?;
         }
 
+        #[cfg(agdb_verif)]
+        crate::verif::fs_event(crate::verif::FsEvent::DataSetLen { len: new_len });
         self.file.set_len(new_len)?;
         self.len = new_len;
         Ok(())
@@ -153,6 +172,8 @@ impl StorageData for FileStorage {
         let mut buffer = vec![0_u8; (std::cmp::min(current_len, end) - pos) as usize];
         Self::read_impl(&self.file, pos, &mut buffer)?;
         self.wal.insert(pos, &buffer)?;
+        #[cfg(agdb_verif)]
+        crate::verif::fs_event(crate::verif::FsEvent::DataWrite { pos, bytes });
         self.file.seek(SeekFrom::Start(pos))?;
         self.file.write_all(bytes)?;
         self.len = std::cmp::max(current_len, end);
